@@ -55,4 +55,11 @@ def ofResult : Except Nb.C06.Err (ReadItem × PostItem) → M V
   | .error _ => .error .valueError
 
 
+def mapErr : Nb.C06.Err → Nb.Py.Err
+  | .index => .indexError
+  | .value => .valueError
+  | .short => .unsupported
+
+def ofShape (l : List Nat) : V := ofList (l.map (fun (n : Nat) => V.int (n : Int)))
+
 end Nb.C06
